@@ -99,7 +99,7 @@ struct L07 : Listener {
 
 CaseResult runC07(const Case &c, RunCtx &ctx) {
     CaseResult r;
-    Interp in(ctx);
+    Interp in(ctx, "C07");
     in.allowUndeclaredFrames = true;
     L07 L(r, ctx); in.L = &L;
     in.run(c);
